@@ -1256,10 +1256,17 @@ def decode_sm_case(code, profile):
     if cname_c == 1 and timed and not case.get("auto"):
         case["pre_dur"] = {timed[t0_c % len(timed)]: [30_000, 70_001, 1, 250_000, 20_000, 500][t0_c]}
     if t0_c == 2 and len(names) >= 2:
-        # some state bodies call next_state_now() twice
-        for k, sd in enumerate(case["states"]):
-            if sd["kind"] != "default":
-                sd["script"] = [(["nsn2", a[1], names[(k + j + 1) % len(names)]] if a[0] == "nsn" and j % 2 == 0 else a) for j, a in enumerate(sd["script"])]
+        # some state bodies call next_state_now() twice. The second target is never a must_finish state: if the first
+        # target calls done(), the second call selects a state on a stopped machine, and what a must_finish state
+        # does there is not covered by any statement (same restriction as for done(); next_state(x))
+        mf_eff2 = {sd["n"]: bool(sd.get("mf")) for sd in case["states"]}
+        for od in case.get("over", []):
+            mf_eff2[od["n"]] = bool(od.get("mf"))
+        plain2 = [n for n in names if not mf_eff2[n]]
+        if plain2:
+            for k, sd in enumerate(case["states"]):
+                if sd["kind"] != "default":
+                    sd["script"] = [(["nsn2", a[1], plain2[(k + j + 1) % len(plain2)]] if a[0] == "nsn" and j % 2 == 0 else a) for j, a in enumerate(sd["script"])]
     if t0_c == 5 and cname_c == 0:
         # done() followed by next_state() in one state body leaves a selection behind on a stopped machine
         mf_eff = {sd["n"]: bool(sd.get("mf")) for sd in case["states"]}
